@@ -52,9 +52,20 @@ func rprop_dense_with_gradient(evalGradient DenseGradientF, x0 DenseFloat64Vecto
     gradient_new[i] = 1
     gradient_old[i] = 1
   }
+  // true if no coordinate with a non-zero partial derivative can move anymore
+  // (a step that has underflowed to zero can never grow again)
+  steps_are_zero := func() bool {
+    for i := 0; i < n; i++ {
+      if gradient_new[i] != 0.0 && step[i] != 0.0 {
+        return false
+      }
+    }
+    return true
+  }
   gradient_is_nan := func(gradient DenseFloat64Vector) bool {
     for i := 0; i < gradient.Dim(); i++ {
-      if math.IsNaN(gradient.ConstAt(i).GetFloat64()) {
+      // an infinite partial derivative is as useless as NaN
+      if d := gradient.ConstAt(i).GetFloat64(); math.IsNaN(d) || math.IsInf(d, 0) {
         return true
       }
     }
@@ -100,6 +111,11 @@ func rprop_dense_with_gradient(evalGradient DenseGradientF, x0 DenseFloat64Vecto
             step[i] *= eta[1]
           }
         }
+        // no step is left to try: give up instead of evaluating the
+        // same point forever
+        if steps_are_zero() {
+          return x1, fmt.Errorf("no valid point found: step sizes underflowed to zero")
+        }
       } else {
         // new position is valid, exit loop
         break
@@ -110,6 +126,9 @@ func rprop_dense_with_gradient(evalGradient DenseGradientF, x0 DenseFloat64Vecto
       // x2 is the point that satisfies the criterion
       copy(x1, x2)
       break;
+    }
+    if steps_are_zero() {
+      return x1, fmt.Errorf("step sizes underflowed to zero before the stopping criterion was met")
     }
     // update step size
     for i := 0; i < x1.Dim(); i++ {
